@@ -970,7 +970,9 @@ def check_C08(tier):
     sym_inputs = []
     for nm, alpha, ml in (("bad+legacy", DEC["bad"] + LEGACY[2:8], 3 if quick else 4), ("caps", DEC["caps"], 3 if quick else 4),
                           ("hrich", hrich, 4 if quick else 5), ("frag", DEC["frag"], 3 if quick else 4),
-                          ("legacy_bad", leg_bad, 3 if quick else 4)):
+                          ("legacy_bad", leg_bad, 3 if quick else 4),
+                          # rings that reach across '.' into earlier fragments, rings on rings: long strings over few symbols
+                          ("dots_rings", ["[C]", "[Ring1]", "[Ring2]", "."], 7 if quick else 9)):
         results, vecs = de.run_decoder_tlc("sym_" + nm.replace("+", "_"), alpha, "default", ml, emit=True, fastjit=quick)
         add_results(rep, "symbol level: " + nm, results, vectors=len(vecs))
         grp = sorted(set("".join(v["inp"]) for v in vecs))
@@ -994,6 +996,8 @@ def check_C08(tier):
     for _ in range(600 if quick else 6000):
         L = rng.randint(0, 40)
         fuzz.append("".join(rng.choice(FUZZ_CHARS) for _ in range(L)))
+    for _ in range(150 if quick else 1500):         # many fragments, rings reaching back across dots
+        fuzz.append("".join(gens.alive_selfies(rng, rng.randint(4, 60), p_dot=0.1, p_nop=0.03, p_ring=0.3)))
     for _ in range(200 if quick else 2000):
         t = gens.alive_selfies(rng, rng.randint(2, 40))
         s = "".join(t)
